@@ -19,13 +19,26 @@ def fold_config(idx):
             return None
         if s == "six.PY3":
             return True
-        if s.replace(" ", "").startswith("version.parse(numpy.__version__)>=version.parse("):
-            m = ast.literal_eval(test.comparators[0].args[0]) if isinstance(test, ast.Compare) else None
+        if isinstance(test, ast.UnaryOp) and isinstance(test.op, ast.Not):
+            inner = fold(test.operand)
+            return None if inner is None else (not inner)
+        if isinstance(test, ast.Compare) and len(test.ops) == 1 and s.replace(" ", "").startswith("version.parse(numpy.__version__)") and isinstance(test.comparators[0], ast.Call) and test.comparators[0].args and isinstance(test.comparators[0].args[0], ast.Constant):
+            # the installed numpy is at least the minimum pyproject.toml states: decidable when the bound compared with is not above it
+            m = test.comparators[0].args[0].value
             nm = idx.config.get("numpy_min")
-            if m and nm:
+            if isinstance(m, str) and nm:
                 parts = tuple(int(x) for x in m.split(".")[:2])
+                op = test.ops[0]
                 if nm >= parts:
-                    return True
+                    if isinstance(op, ast.GtE):
+                        return True
+                    if isinstance(op, ast.Lt):
+                        return False
+                if nm > parts:
+                    if isinstance(op, ast.Gt):
+                        return True
+                    if isinstance(op, ast.LtE):
+                        return False
             raise AnalysisError("numpy version test %s can not be folded from pyproject.toml" % s)
         return None
 
@@ -278,6 +291,13 @@ def single_defs(fi):
             for x in ast.walk(n.optional_vars):
                 if isinstance(x, ast.Name):
                     counts[x.id] = counts.get(x.id, 0) + 2
+    # a name whose object is changed in place after its definition is not "its defining expression" any more
+    MUT = ("append", "extend", "insert", "add", "update", "pop", "remove", "clear", "sort", "reverse", "setdefault", "popitem", "discard")
+    for n in own_nodes(fi.node):
+        if isinstance(n, ast.Call) and isinstance(n.func, ast.Attribute) and n.func.attr in MUT and isinstance(n.func.value, ast.Name):
+            counts[n.func.value.id] = counts.get(n.func.value.id, 0) + 2
+        if isinstance(n, (ast.Subscript, ast.Attribute)) and isinstance(n.ctx, (ast.Store, ast.Del)) and isinstance(n.value, ast.Name) and isinstance(values.get(n.value.id), (ast.List, ast.Dict, ast.Set, ast.ListComp, ast.DictComp)):
+            counts[n.value.id] = counts.get(n.value.id, 0) + 2
     out = {nm: values[nm] for nm, c in counts.items() if c == 1 and nm in values and nm not in params}
     _cache[k] = out
     return out
@@ -351,3 +371,69 @@ def lossy_number_formatting(idx, fi):
         if isinstance(n, ast.BinOp) and isinstance(n.op, ast.Mod) and isinstance(n.left, ast.Constant) and isinstance(n.left.value, str) and any(c in n.left.value for c in ("%e", "%f", "%g", "%d", "%.", "%E", "%G")):
             out.append((n, "% formatting"))
     return out
+
+
+def dep_names(fi, expr, depth=6):
+    """every local name `expr` depends on, following single-assignment definitions transitively"""
+    defs = {}
+    for n in own_nodes(fi.node):
+        if isinstance(n, ast.Assign):
+            for t in n.targets:
+                if isinstance(t, ast.Name):
+                    defs.setdefault(t.id, []).append(n.value)
+    seen = set()
+    work = list(names_in(expr))
+    d = 0
+    while work and d < 200:
+        d += 1
+        n = work.pop()
+        if n in seen:
+            continue
+        seen.add(n)
+        for v in defs.get(n, ()):
+            work.extend(names_in(v))
+    return seen
+
+
+def flow_expand(fi, expr, anchor):
+    """`expr` as it stands at the statement containing `anchor`, with the plain name assignments that precede it on the
+    straight line (in the enclosing blocks, innermost last) substituted in order - also names assigned several times
+    (`x = a; x = x or b; use(x)` gives `a or b`).  Names reassigned inside intervening compound statements are dropped."""
+    import copy
+
+    env = {}
+
+    class S(ast.NodeTransformer):
+        def visit_Name(self, x):
+            if isinstance(x.ctx, ast.Load) and x.id in env:
+                return copy.deepcopy(env[x.id])
+            return x
+
+    def contains(st):
+        return any(x is anchor for x in ast.walk(st))
+
+    def walk(stmts):
+        for st in stmts:
+            if contains(st):
+                if isinstance(st, (ast.For, ast.While)):
+                    for x in ast.walk(st.target) if isinstance(st, ast.For) else []:
+                        if isinstance(x, ast.Name):
+                            env.pop(x.id, None)
+                for f_ in ("body", "orelse", "finalbody"):
+                    v = getattr(st, f_, None)
+                    if isinstance(v, list) and v and isinstance(v[0], ast.stmt) and any(contains(b) for b in v):
+                        return walk(v)
+                for h in getattr(st, "handlers", []) or []:
+                    if any(contains(b) for b in h.body):
+                        return walk(h.body)
+                return True
+            if isinstance(st, ast.Assign) and len(st.targets) == 1 and isinstance(st.targets[0], ast.Name):
+                env[st.targets[0].id] = S().visit(copy.deepcopy(st.value))
+            else:
+                for x in ast.walk(st):
+                    if isinstance(x, ast.Name) and isinstance(x.ctx, (ast.Store, ast.Del)):
+                        env.pop(x.id, None)
+        return False
+
+    walk(fi.node.body)
+    return S().visit(copy.deepcopy(expr))
